@@ -43,6 +43,8 @@ T["nested_no_viewbox"] = doc(f'<svg x="{{vx}}" y="{{vy}}" width="{{w3}}" height=
 T["nested_no_viewbox_hidden"] = doc(f'<svg x="{{vx}}" y="{{vy}}" width="{{w3}}" height="{{h3}}">{RECT}</svg>')
 T["nested_in_group"] = doc(f'<g transform="translate({{tx}} {{ty}})"><svg x="{{vx}}" y="{{vy}}" width="{{w3}}" height="{{h3}}" viewBox="{{bx}} {{by}} {{w4}} {{h4}}" overflow="visible">{RECT}</svg></g>')
 T["nested_nested"] = doc(f'<svg x="{{vx}}" y="{{vy}}" width="{{w3}}" height="{{h3}}" viewBox="0 0 {{w4}} {{h4}}" overflow="visible"><svg x="{{ux}}" y="{{uy}}" overflow="visible">{RECT}</svg></svg>')
+T["nested_nested_inner_viewbox_nosize"] = doc(f'<svg x="{{vx}}" y="{{vy}}" width="{{w3}}" height="{{h3}}" viewBox="0 0 {{w4}} {{h4}}" overflow="visible"><svg viewBox="{{bx}} {{by}} {{w5}} {{h5}}" preserveAspectRatio="none" overflow="visible">{RECT}</svg></svg>')
+T["nested_nested_inner_nosize_hidden"] = doc(f'<svg x="{{vx}}" y="{{vy}}" width="{{w3}}" height="{{h3}}" viewBox="0 0 {{w4}} {{h4}}" overflow="visible"><svg x="{{ux}}" y="{{uy}}">{RECT}</svg></svg>')
 # --- display none -------------------------------------------------------------------
 T["display_none_group"] = doc(f'<g display="none" transform="translate({{tx}})">{RECT}</g><g transform="translate({{tx}} {{ty}})">{POLY}</g>')
 T["display_none_style"] = doc(f'<g transform="scale({{s1}})"><rect x="{{x1}}" y="{{y1}}" width="{{w1}}" height="{{h1}}" style="display:none"/>{POLY}</g>')
